@@ -163,14 +163,22 @@ theorem one_dim_no_resample (p : PixT) (src prev : Img) (cl ct cw ch : Float) (f
 theorem convolution_overwrites_everything (p : PixT) (src prev prev' : Img) (cl ct cw ch : Float) (f : FilterSpec) (adaptive : Bool)
     (hw : prev'.w = prev.w) (hh : prev'.h = prev.h)
     (hne : ¬ (prev.w = 0 ∨ prev.h = 0 ∨ cw ≤ 0.0 ∨ ch ≤ 0.0))
-    (hpass : (Float.ofNat prev.w != cw || cl != cl.round) = true ∨ (Float.ofNat prev.h != ch || ct != ct.round) = true) :
+    (hpass : (Float.ofNat prev.w != cw || cl != cl.round) = true ∨ (Float.ofNat prev.h != ch || ct != ct.round) = true)
+    (htemp : boundsLast (precomputeCoefficients src.w cl (cl + cw) prev.w f adaptive)
+               - boundsFirst (precomputeCoefficients src.w cl (cl + cw) prev.w f adaptive) ≠ 0) :
     doConvolution p src cl ct cw ch prev f adaptive = doConvolution p src cl ct cw ch prev' f adaptive := by
   unfold doConvolution
   simp only [if_neg hne, hw, hh]
   cases hH : (Float.ofNat prev.w != cw || cl != cl.round) <;>
   cases hV : (Float.ofNat prev.h != ch || ct != ct.round)
   · rw [hH, hV] at hpass; simp at hpass
-  all_goals rfl
+  · rfl
+  · rfl
+  · simp only [ite_true]
+    by_cases hk : p.kind == .u8
+    · simp only [hk, if_true, if_neg htemp]
+    · simp only [hk]
+      rfl
 
 theorem vertPass_column_local (k : CKind) (src src' : Img) (dstW dstH offset : Nat) (c : Coeffs) (x y ch : Nat)
     (hx : x < dstW) (hy : y < dstH) (hch : ch < src.n) (hn : src'.n = src.n)
